@@ -61,3 +61,23 @@ impl<C> Encode<C> for FailAfter {
         Err(minicbor::encode::Error::message("this value refuses to be encoded"))
     }
 }
+
+/// A value whose codec depends on the user context handed to `write_with` / `read_with`: the context is a running
+/// key that is added on encode, subtracted on decode and advanced once per value.
+#[derive(Clone, Copy, Debug, PartialEq)]
+pub struct Keyed(pub u32);
+impl Encode<u32> for Keyed {
+    fn encode<W: minicbor::encode::Write>(&self, e: &mut minicbor::Encoder<W>, ctx: &mut u32) -> Result<(), minicbor::encode::Error<W::Error>> {
+        e.u32(self.0.wrapping_add(*ctx))?;
+        *ctx = ctx.wrapping_add(1);
+        Ok(())
+    }
+}
+impl<'b> Decode<'b, u32> for Keyed {
+    fn decode(d: &mut minicbor::Decoder<'b>, ctx: &mut u32) -> Result<Self, minicbor::decode::Error> {
+        let x = d.u32()?;
+        let v = x.wrapping_sub(*ctx);
+        *ctx = ctx.wrapping_add(1);
+        Ok(Keyed(v))
+    }
+}
